@@ -40,6 +40,7 @@ ROUTINES = [
     "ts_sac", "ddpg_actor", "sac_actor", "entropy", "td7_critic", "td7_actor",
     "sale", "encoder", "mrq_cp", "ppo", "a2c_policy", "value_fn", "reinforce_policy",
     "ac_policy", "train_epoch", "train_ensemble", "pets_model_update", "soft", "hard",
+    "mt_ts_ddqn", "mt_ts_nature", "mt_mrq_cp", "mt_encoder",
 ]
 LOOP_ALGOS = ["dqn", "nature_dqn", "ddqn", "per", "ddpg", "td3", "td3_lap", "sac",
               "td7", "mrq"]
@@ -261,6 +262,72 @@ def build(routine, rng):
         idx = jnp.asarray(rng.integers(0, 10, size=(2, E, 3)))
         call = lambda: pe.train_epoch(model, o, X, Y, idx)  # noqa: E731
         return call, dict(model=model, model_opt=o), {"model", "model_opt"}
+    if routine.startswith("mt_"):
+        # multi-task networks (task embedding tables); rows pushed beyond the
+        # maximum norm, as they are after some optimiser steps / a hard update
+        from flax import nnx
+        from rl_blox.blox.embedding import task_embedding as te
+
+        def grow(mod):
+            e = mod._task_embedding.embedding
+            e.value = e.value * float(rng.choice([1.0, 4.0, 9.0]))
+
+        n_tasks = int(rng.integers(2, 5))
+        if routine in ("mt_ts_ddqn", "mt_ts_nature"):
+            mk = lambda: te.MTMLPQNetwork(  # noqa: E731
+                n_tasks, 3, 3, 3, [6], "tanh", nnx.Rngs(int(rng.integers(1 << 20))))
+            q, qt = mk(), mk()
+            grow(q)
+            grow(qt)
+            tid = int(rng.integers(n_tasks))
+            q.task_id, qt.task_id = tid, tid
+            o = parts.opt(q)
+            batch = parts.flat_batch(rng, N, discrete=3)
+            lossf = L.ddqn_loss if routine == "mt_ts_ddqn" else L.nature_dqn_loss
+            call = lambda: dqn.train_step_with_loss(lossf, o, q, qt, batch, 0.9)  # noqa: E731
+            return call, dict(q=q, q_opt=o, q_target=qt), {"q", "q_opt"}
+        import gymnasium as gym
+
+        space = parts.box(rng)
+
+        class E:
+            observation_space = gym.spaces.Box(-np.inf, np.inf, (3,), np.float32)
+            action_space = space
+
+        st = te.create_mt_mrq_state(
+            E(), n_tasks, task_embedding_dim=3, policy_hidden_nodes=[6],
+            q_hidden_nodes=[6], encoder_n_bins=9, encoder_zs_dim=5,
+            encoder_za_dim=4, encoder_zsa_dim=5, encoder_hidden_nodes=[6],
+            policy_learning_rate=1e-2, q_learning_rate=1e-2,
+            encoder_learning_rate=1e-2, seed=int(rng.integers(1 << 20)))
+        pwe = st.policy_with_encoder
+        enc_t = nnx.clone(pwe.encoder)
+        parts.rescale(enc_t, 0.9)
+        grow(pwe.encoder)
+        grow(enc_t)
+        q_t = nnx.clone(st.q)
+        parts.rescale(q_t, 0.8)
+        objs = dict(encoder=pwe.encoder, encoder_opt=st.encoder_optimizer,
+                    encoder_target=enc_t, policy=pwe.policy,
+                    policy_opt=st.policy_optimizer, q=st.q, q_opt=st.q_optimizer,
+                    q_target=q_t)
+        if routine == "mt_encoder":
+            from rl_blox.blox.embedding.model_based_encoder import (
+                update_model_based_encoder,
+            )
+            delay, bs, h = 2, 3, 2
+            batches = parts.sub_batch(rng, delay * bs, h)
+            call = lambda: update_model_based_encoder(  # noqa: E731
+                pwe.encoder, enc_t, st.encoder_optimizer, st.the_bins, h, 1.0, 0.1,
+                0.1, delay, bs, True, batches, True)
+            return call, objs, {"encoder", "encoder_opt"}
+        from rl_blox.algorithm.mrq import update_critic_and_policy
+        batch = parts.sub_batch(rng, N, 2, reduced=True)
+        na = jnp.asarray(rng.normal(size=(N, 2)), jnp.float32)
+        call = lambda: update_critic_and_policy(  # noqa: E731
+            st.q, q_t, st.q_optimizer, pwe.policy, st.policy_optimizer, pwe.encoder,
+            enc_t, 0.9, 1e-5, na, batch, 1.2, 0.8)
+        return call, objs, {"q", "q_opt", "policy", "policy_opt"}
     if routine in ("train_ensemble", "pets_model_update"):
         from rl_blox.algorithm import pets
         from rl_blox.blox import probabilistic_ensemble as pe
@@ -377,6 +444,28 @@ def run_nochange(case):
         "act_greedy": lambda: q_policy.greedy_policy(q, np.asarray(cb.observation[0])),
         "log_prob": lambda: gpol.log_probability(cb.observation, na),
     }
+    # multi-task networks: acting / evaluating must not touch the embedding table
+    from flax import nnx
+    from rl_blox.blox.embedding import task_embedding as te
+    mtq = te.MTMLPQNetwork(3, 3, 3, 3, [6], "tanh", nnx.Rngs(5))
+    mtq._task_embedding.embedding.value = mtq._task_embedding.embedding.value * 6.0
+    mtq.task_id = 1
+    mtpol = te.create_model_based_mt_encoder_and_policy(
+        3, 3, 3, 2, space, policy_hidden_nodes=[6], encoder_n_bins=9,
+        encoder_zs_dim=5, encoder_za_dim=4, encoder_zsa_dim=5,
+        encoder_hidden_nodes=[6], rngs=nnx.Rngs(6))
+    mtpol.encoder._task_embedding.embedding.value = \
+        mtpol.encoder._task_embedding.embedding.value * 6.0
+    objs.update(mtq=mtq, mtpol=mtpol)
+    calls.update({
+        "mt_act_greedy": lambda: q_policy.greedy_policy(
+            mtq, np.asarray(cb.observation[0])),
+        "mt_q_forward": lambda: mtq(cb.observation),
+        "mt_policy_call": lambda: mtpol(cb.observation),
+        "mt_act_explore": lambda: make_sample_actions(space, 0.2)(
+            mtpol, cb.observation[0], key),
+        "mt_ddqn_loss": lambda: L.ddqn_loss(mtq, mtq, db, 0.9),
+    })
     before = {n: parts.digest(o) for n, o in objs.items()}
     for name, call in calls.items():
         ok, _ = guarded(res, f"C05/raises/{name}", call)
